@@ -208,6 +208,13 @@ func verifC03_deflate() {
 		blocks = []int{n}
 	}
 	payload := vStored(data, blocks, final)
+	rfcOctet := false
+	if final && vChoose("rfcExtraOctet", 2) == 1 {
+		// RFC 7692 7.2.3.4: a BFINAL=1 message carries one more 0x00 octet (an empty stored block header) so that the
+		// receiver's 00 00 ff ff completes a block
+		payload = append(payload, 0x00)
+		rfcOctet = true
+	}
 	var cuts []int
 	cutAtEnd := false
 	if vChoose("frag", 2) == 1 {
@@ -244,7 +251,9 @@ func verifC03_deflate() {
 	}
 	if final {
 		vReach("C03.deflate.bfinal1")
-		if cutAtEnd {
+		if rfcOctet {
+			vClassify("shape", "bfinal1-with-rfc7692-trailing-octet")
+		} else if cutAtEnd {
 			vClassify("shape", "bfinal1-block-ends-at-nonfinal-frame-end")
 		} else {
 			vClassify("shape", "bfinal1")
